@@ -93,7 +93,9 @@ def gen_program(g, ndim=None):
     if layout in ("mesh+part", "part_only"):
         # every group carries its own position unit (e.g. after a .to() on one group): the region is converted per group
         upart = r.choice(lens) if r.random() < 0.7 else upos
-        group("part", rows(r.choice([0, 2, 5]), Fraction(g.ujson(upart)["f"])), unit=upart)
+        # as many particles as cells now and then: a group with its own positions is located by them, whatever its row count
+        npart = n if (n > 0 and r.random() < 0.4) else r.choice([0, 2, 5])
+        group("part", rows(npart, Fraction(g.ujson(upart)["f"])), unit=upart)
     if layout == "mesh+sink_same":
         group("sink", [[Fraction(0)] * ndim] * n, with_pos=False)
     if layout == "mesh+sink_other":
